@@ -169,14 +169,18 @@ def d_bool():
 
 
 def d_enum():
-  return Desc('Enum', "T.Enum('a', ['a', 'b', 3])", lambda v, p: (isinstance(v, str) or _isint(v)) and v in ('a', 'b', 3),
+  d = Desc('Enum', "T.Enum('a', ['a', 'b', 3])", lambda v, p: (isinstance(v, str) or _isint(v)) and v in ('a', 'b', 3),
               [('member', "'b'"), ('member', '3'), ('member', "'a'")],
               [('non-member', "'c'"), ('non-member', '4'), ('non-member', "['a']"), ('None', 'None')])
+  d.has_default, d.default = True, 'a'     # an Enum's first argument is its default
+  return d
 
 
 def d_any():
-  return Desc('Any', 'T.Any()', lambda v, p: True,
+  d = Desc('Any', 'T.Any()', lambda v, p: True,
               [('any', '1'), ('any', "'s'"), ('any', '[1, {"k": 2}]'), ('any', 'None')], [])
+  d.noneable = True
+  return d
 
 
 def d_list(elem, lo=0, hi=None):
@@ -331,7 +335,7 @@ def noneable(d):
 
 
 def with_default(d, value_src):
-  src = d.src[:-1] + (', ' if not d.src.endswith('(') else '') + f'default={value_src})'
+  src = d.src[:-1] + (', ' if not d.src[:-1].endswith('(') else '') + f'default={value_src})'
   n = Desc(d.name + f'={value_src}', src, d._ok, d.valid, d.invalid, pre=d.pre)  # pylint: disable=protected-access
   n.__dict__.update({k: v for k, v in d.__dict__.items() if k in ('elem', 'lo', 'hi', 'fields', 'cls_name', 'noneable')})
   n.has_default = True
@@ -417,6 +421,9 @@ def vocabulary(tier):
 # model of both.
 # ---------------------------------------------------------------------------
 
+_PRE_ENV = {}
+
+
 class Subject:
   """How to build the container under test (source), and its model."""
 
@@ -428,6 +435,16 @@ class Subject:
     self.scope_partial = scope_partial   # ops run under `with pg.allow_partial(True)`
 
   def build(self):
+    pre = self.root_desc.pre
+    if pre and self.setup.startswith(pre):
+      base = _PRE_ENV.get(pre)
+      if base is None:
+        base = dict(_ENV)
+        _exec(pre, base)        # class definitions: once per distinct source
+        _PRE_ENV[pre] = base
+      env = dict(base)
+      _exec(self.setup[len(pre):], env)
+      return env
     env = dict(_ENV)
     _exec(self.setup, env)
     return env
@@ -456,8 +473,8 @@ def _check_real(value, spec, partial):
 class Run:
   """One live subject driven through a history of ops."""
 
-  def __init__(self, rec, subject):
-    self.rec, self.sub = rec, subject
+  def __init__(self, rec, subject, repeat=True):
+    self.rec, self.sub, self.repeat = rec, subject, repeat
     self.env = subject.build()
     self.prefix = []
 
@@ -517,7 +534,8 @@ class Run:
            and not isinstance(res, pg.Object):
           pass          # result does not carry a schema: nothing to violate
         else:
-          ok, msg = False, f'schema-rejected write accepted ({op["why"]}): {op["src"]} on {before!r} -> {after!r}'
+          shown = plain(res) if op.get('result') else after
+          ok, msg = False, f'schema-rejected write accepted ({op["why"]}): {op["src"]} on {before!r} -> {shown!r}'
       elif not isinstance(raised, REJECT_CLASSES):
         ok, msg = False, (f'schema-rejected write ({op["why"]}) raised {type(raised).__name__} instead of '
                           f'TypeError/ValueError/KeyError: {op["src"]} on {before!r}: {raised}')
@@ -554,6 +572,11 @@ class Run:
     rec.case(cid, key, ok, msg, wit)
     if ok:
       self.prefix.append(op['src'])
+      if op['expect'] == 'reject' and not op.get('result') and not op.get('_repeat') and self.repeat:
+        # A rejection must not make the same write acceptable the next time.
+        kindname, _, cls = op['cid'].partition('/')
+        again = dict(op, _repeat=True, cid=f'{kindname.split(".")[0]}.repeat-after-rejection/{cls}')
+        self.step(again, key + ('again',))
     return ok, raised
 
 
@@ -605,21 +628,12 @@ def _subseq(a, b):
   return all(any(x == y for y in it) for x in a)
 
 
-def _list_batch_ok(valid_new):
-  """Earlier valid elements of a batch may have been applied."""
-  def f(before, after_root_unused, xb=None, xa=None):
-    del after_root_unused
-    return False
-  del f
+def _list_batch_ok(n_valid):
+  """A failed batch may have applied at most its n_valid valid elements."""
   def g(xb, xa):
-    extra = list(xa)
     if len(xa) == len(xb):
-      return all(a == b or any(a == v for v in valid_new) for a, b in zip(xa, xb))
-    if not _subseq(xb, xa):
-      return False
-    for e in xb:
-      extra.remove(e)
-    return all(any(e == v for v in valid_new) for e in extra)
+      return sum(1 for a, b in zip(xa, xb) if a != b) <= n_valid
+    return len(xb) < len(xa) <= len(xb) + n_valid and _subseq(xb, xa)
   return g
 
 
@@ -648,8 +662,7 @@ def list_ops(sub, n, elem_samples):
     op = dict(src=src, cid=f'list.{name}/{cls}', expect='reject' if why else 'any', why=why,
               index_error=index_error, result=result)
     if batch:
-      valid_new = [plain(_eval(s, dict(_ENV, **_classes(sub)))) for _, s, v in vals if v]
-      g = _list_batch_ok(valid_new)
+      g = _list_batch_ok(sum(1 for _, _, v in vals if v))
       op['batch_ok'] = lambda b, a, g=g: _on_x(sub, b, a, g)
     ops.append(op)
 
@@ -665,11 +678,11 @@ def list_ops(sub, n, elem_samples):
     add('extend', f'x.extend([{v0[1]},{s}])', n + 2, [v0, t], batch=True)
     add('iadd', f'x+=[{s}]', n + 1, [t], batch=True)
     add('iadd', f'x+=({v0[1]},{s})', n + 2, [v0, t], batch=True)
-    add('rebind-append', f'x.rebind({{{n + 3}:{s}}})', n + 1, [t])
-    add('rebind-insert', f'x.rebind({{0:Ins({s})}})', n + 1, [t])
-    add('rebind-insert', f'x.rebind({{{n}:Ins({s})}})', n + 1, [t])
-    add('setitem-slice-insert', f'x[{n}:{n}]=[{s}]', n + 1, [t], batch=True)
-    add('setitem-slice-insert', f'x[0:0]=[{v0[1]},{s}]', n + 2, [v0, t], batch=True)
+    add('rebind-grow', f'x.rebind({{{n + 3}:{s}}})', n + 1, [t])
+    add('rebind-grow', f'x.rebind({{0:Ins({s})}})', n + 1, [t])
+    add('rebind-grow', f'x.rebind({{{n}:Ins({s})}})', n + 1, [t])
+    add('setitem-slice-grow', f'x[{n}:{n}]=[{s}]', n + 1, [t], batch=True)
+    add('setitem-slice-grow', f'x[0:0]=[{v0[1]},{s}]', n + 2, [v0, t], batch=True)
     add('add', f'y=x+[{s}]', n + 1, [t], result=ld)
     add('ctor', 'y=pg.List(list(x.sym_values())+[' + s + '],value_spec=x.value_spec)', n + 1, [t], result=ld)
     if n >= 1:
@@ -681,7 +694,7 @@ def list_ops(sub, n, elem_samples):
       add('setitem-slice-grow', f'x[0:1]=[{s},{v0[1]}]', n + 1, [t, v0], batch=True)
       add('setitem-slice-grow', f'x[-1:]=[{v0[1]},{v0[1]},{s}]', n + 2, [v0, v0, t], batch=True)
       add('setitem-slice-step', f'x[::2]=[{s}]*len(x[::2])', n, [t], batch=True)
-      add('rebind-multi', f'x.rebind({{0:{v0[1]},{n + 1}:{s}}})', n + 1, [v0, t], batch=True)
+      add('rebind-grow', f'x.rebind({{0:{v0[1]},{n + 1}:{s}}})', n + 1, [v0, t], batch=True)
       add('rebind-multi', f'x.rebind({{0:Ins({s}),{n - 1}:M}})', n, [t], batch=True)
     if n >= 2:
       add('setitem-slice-shrink', f'x[0:2]=[{s}]', n - 1, [t], batch=True)
@@ -838,9 +851,8 @@ def drv_list_histories(tier, seed):
 
 
 _HIST_OPS = {'list.append', 'list.insert', 'list.extend', 'list.iadd', 'list.imul', 'list.setitem', 'list.pop',
-             'list.delitem', 'list.delitem-slice', 'list.remove', 'list.clear', 'list.rebind-append',
-             'list.rebind-insert', 'list.rebind-delete', 'list.rebind-replace', 'list.setitem-slice-grow',
-             'list.setitem-slice-shrink', 'list.setitem-slice-delete', 'list.setitem-slice-insert',
+             'list.delitem', 'list.delitem-slice', 'list.remove', 'list.clear', 'list.rebind-grow', 'list.rebind-delete', 'list.rebind-replace', 'list.setitem-slice-grow',
+             'list.setitem-slice-shrink', 'list.setitem-slice-delete',
              'list.setitem-MISSING', 'list.rebind-multi', 'list.rebind-multi-delete'}
 
 
@@ -968,23 +980,27 @@ def dict_ops(sub, fd, present):
     add('rebind-multi' + tag, f'x.rebind({{"g":2,{key!r}:{s}}},raise_on_no_change=False)', cls, why, batch=vg)
     add('rebind-multi' + tag, f'x.rebind({{{key!r}:{s},"g":2}},raise_on_no_change=False)', cls, why, batch=vg)
 
-  # 1. field f: valid and invalid values
-  for lab, s in fd.valid:
+  # 1. field f: valid and invalid values (a value that merely lacks required
+  # members is acceptable when partial values are allowed)
+  f_valid = list(fd.valid) + ([t for t in fd.invalid if 'missing-required' in t[0]] if partial else [])
+  f_invalid = [t for t in fd.invalid if t not in f_valid]
+  for lab, s in f_valid:
     paths('f', s, 'valid-value', None)
-  for lab, s in fd.invalid:
+  for lab, s in f_invalid:
     paths('f', s, 'invalid-value', f'invalid value for f ({lab})')
   # 2. constructor / from_json / nested paths
   req_r = '"r":1'
-  for lab, s, valid in [(l, s, True) for l, s in fd.valid] + [(l, s, False) for l, s in fd.invalid]:
+  for lab, s, valid in [(l, s, True) for l, s in f_valid] + [(l, s, False) for l, s in f_invalid]:
     cls, why = ('valid-value', None) if valid else ('invalid-value', f'invalid value for f ({lab})')
+    pcls, pwhy = (cls, why) if 'missing-required' not in lab else ('valid-value', None)
     if kind == 'dict':
       add('ctor', f'y=pg.Dict({{"f":{s},{req_r}}},value_spec=x.value_spec)', cls, why, result=sub.x_desc)
       add('ctor-kwargs', f'y=pg.Dict(f={s},r=1,value_spec=x.value_spec)', cls, why, result=sub.x_desc)
-      add('ctor-partial', f'y=pg.Dict.partial({{"f":{s}}},value_spec=x.value_spec)', cls, why, result=_PARTIAL)
+      add('ctor-partial', f'y=pg.Dict.partial({{"f":{s}}},value_spec=x.value_spec)', pcls, pwhy, result=_PARTIAL)
     else:
       add('ctor', f'y=Obj(f={s},r=1)', cls, why, result=sub.x_desc)
       add('ctor-positional', f'y=Obj({s},r=1)' if not fd.frozen else f'y=Obj(r=1,f={s})', cls, why, result=sub.x_desc)
-      add('ctor-partial', f'y=Obj.partial(f={s})', cls, why, result=_PARTIAL)
+      add('ctor-partial', f'y=Obj.partial(f={s})', pcls, pwhy, result=_PARTIAL)
       add('from_json', f'y=pg.from_json({{"_type":Obj.__type_name__,"f":pg.to_json({s}),"r":1}})', cls,
           why if not _json_lossy(s) else None, result=sub.x_desc)
   # 3. MISSING / deletion of f, g (default), r (required), h (frozen)
@@ -1007,6 +1023,12 @@ def dict_ops(sub, fd, present):
   paths('r', '5', 'valid-value', None)
   paths('r', '6', 'invalid-value', 'r: 6 > max 5')
   paths('zz', '1', 'undeclared-key', 'zz is not declared')
+  if kind == 'object':
+    # `obj.zz = 1` on an undeclared name is an ordinary Python attribute, not a
+    # write into the schema-governed state: only the generic checks apply.
+    for o in ops:
+      if o['src'] == 'x.zz=1':
+        o.update(expect='any', why=None, cid='object.setattr/undeclared-name-plain-attribute')
   if kind == 'dict':
     paths('x1', '5', 'dynamic-key-valid', None)
     paths('x1', '6', 'dynamic-key-invalid-value', 'x*: 6 > max 5')
@@ -1034,12 +1056,14 @@ def dict_ops(sub, fd, present):
     add('copy', 'y=x.copy()', 'valid', result=sub.x_desc)
   else:
     add('ctor', 'y=Obj(r=1,zz=1' + ('' if fd.frozen else f',f={fd.valid[0][1]}') + ')', 'undeclared-key', 'zz is not declared', result=sub.x_desc)
-    add('ctor', 'y=Obj()', 'valid' if partial and False else 'missing-required', 'r is required', result=sub.x_desc)
+    add('ctor', 'y=Obj()', 'valid' if sub.scope_partial else 'missing-required',
+        None if sub.scope_partial else 'r is required', result=sub.x_desc)
     add('ctor-partial', 'y=Obj.partial()', 'valid', result=_PARTIAL)
   add('clone', 'y=x.clone()', 'valid', result=sub.x_desc)
   add('clone', 'y=x.clone(deep=True)', 'valid', result=sub.x_desc)
   # 5. nested paths when f is a container
-  if hasattr(fd, 'elem') and not fd.noneable:
+  f_now = img.get('f', M)
+  if hasattr(fd, 'elem') and isinstance(f_now, list) and f_now:
     e = fd.elem
     for lab, s in e.invalid[:3]:
       why = f'invalid element ({lab})'
@@ -1049,7 +1073,7 @@ def dict_ops(sub, fd, present):
       add('child-setitem', f'x.f[0]={s}', 'invalid-element', why)
     for lab, s in e.valid[:1]:
       add('rebind-path', f'x.rebind({{"f[0]":{s}}},raise_on_no_change=False)', 'valid-element')
-  if hasattr(fd, 'fields') and not hasattr(fd, 'cls_name') and not fd.noneable and fd.name.startswith('Dict(p'):
+  if hasattr(fd, 'fields') and isinstance(f_now, dict) and fd.name.startswith('Dict(p'):
     add('rebind-path', 'x.rebind({"f.p":9})', 'invalid-member', 'p: 9 > max 5')
     add('rebind-path', 'x.rebind({"f.zz":1})', 'undeclared-key', 'zz not declared in f')
     add('child-setitem', 'x.f["p"]=9', 'invalid-member', 'p: 9 > max 5')
